@@ -128,5 +128,27 @@ def jobs(tier: str):
                     yield job("C10/scope", prog, uni, [config(["duplication"], IN0, [], oracle)],
                               meta={"scoped": sc, "comp": comp, "outs": [o1n, o2n]})
 
+    def nonbinding():
+        # the shared set binds none of its variables; each occurrence has its own binder next to the set
+        sets = [["X > 1", "not q(X)"], ["e(2*X)", "not q(X)"], ["X < 3", "X > 0"], ["X != Y", "not p(X,Y)"],
+                ["not e(X)", "not q(X)"]]
+        ctxs = [("cond", "h{I} :- g(Z) : {B}, {SC}."), ("agg", "h{I}(N) :- N = #sum {{ 1,X : {B}, {SC} }}."),
+                ("body", "h{I} :- {B}; {S}."), ("weak", ":~ {B}; {S}. [1@{I},X]")]
+        uni = ["p(1,2)", "p(2,1)", "p(2,2)", "q(1)", "q(2)", "e(1)", "e(2)", "e(4)", "g(1)"]
+        for lits in sets:
+            xy = any("Y" in l for l in lits)
+            binders = ["p(X,Y)", "p(Y,X)"] if xy else ["e(X)", "g(X)", "p(X,_)"]
+            for (c1n, c1), (c2n, c2) in product(ctxs, ctxs):
+                if c1n > c2n:
+                    continue
+                for b1, b2 in product(binders, binders):
+                    if b1 > b2:
+                        continue
+                    o1 = c1.format(I=1, B=b1, S="; ".join(lits), SC=", ".join(lits))
+                    o2 = rename(c2.format(I=2, B=b2, S="; ".join(lits), SC=", ".join(lits)), RENAMES[2][1])
+                    yield job("C10/nonbinding", o1 + "\n" + o2, uni, [config(["duplication"], IN0, [], oracle)],
+                              meta={"set": lits, "ctx": [c1n, c2n], "binders": [b1, b2]})
+
     yield from dedupe(gen())
     yield from dedupe(scope())
+    yield from dedupe(nonbinding())
